@@ -194,3 +194,548 @@ Proof.
     eapply Forall_impl; [|exact Hall]. cbn beta. intros z Hz. lia.
   - intros _. rewrite (heap_pop_none _ _ Hp). constructor.
 Qed.
+
+(* ====================================================================== *)
+(* VM worker                                                              *)
+
+Lemma fold_schedule_vm rs w :
+  fold_left schedule_at_vm rs w = mkVm (v_cur w) (v_heap w) (v_chan w ++ map to_task rs).
+Proof.
+  revert w. induction rs as [|r rs IH]; intro w; cbn [fold_left map].
+  - rewrite app_nil_r. destruct w as [wc wh wch]; reflexivity.
+  - rewrite IH. unfold schedule_at_vm. cbn [v_cur v_heap v_chan]. rewrite <- app_assoc. reflexivity.
+Qed.
+
+Lemma drain_channel_ok cur ch h :
+  Forall (fun x => cur < when x) ch -> drain_channel cur ch h = Done (h ++ ch).
+Proof.
+  revert h. induction ch as [|x r IH]; intros h HF; cbn [drain_channel].
+  - rewrite app_nil_r. reflexivity.
+  - inversion HF as [|? ? Hx Hr]; subst.
+    destruct (when x <=? cur) eqn:Hle; [apply N.leb_le in Hle; lia|].
+    rewrite (IH _ Hr). unfold heap_push. rewrite <- app_assoc. reflexivity.
+Qed.
+
+(* what the code does when the premise is violated: a task in the channel that is not in the future of the
+   worker's (previous) current time makes the next on_sample panic *)
+Lemma drain_channel_panics cur ch h x :
+  In x ch -> when x <= cur -> drain_channel cur ch h = Panic.
+Proof.
+  revert h. induction ch as [|y r IH]; intros h Hin Hle; [destruct Hin|].
+  cbn [drain_channel]. destruct (when y <=? cur) eqn:Hy; [reflexivity|].
+  destruct Hin as [->|Hin]; [apply N.leb_gt in Hy; lia|]. apply IH; assumption.
+Qed.
+
+Lemma spawned_app beh t a b : spawned beh t (a ++ b) = spawned beh t a ++ spawned beh t b.
+Proof. unfold spawned. apply flat_map_app. Qed.
+
+Lemma spawned_cons beh t x ex :
+  spawned beh t (x :: ex) = map to_task (beh (clo x) t) ++ spawned beh t ex.
+Proof. reflexivity. Qed.
+
+Lemma spawned_perm beh t a b : Permutation a b -> Permutation (spawned beh t a) (spawned beh t b).
+Proof. apply Permutation_flat_map. Qed.
+
+(* the second loop of on_sample: executes exactly the tasks with when <= time (in some order), leaves the
+   others, and everything the executed closures schedule lands in the channel *)
+Lemma run_ready_vm_spec sel beh time :
+  forall fuel w log, (length (v_heap w) <= fuel)%nat ->
+  exists h' ex,
+    run_ready_vm sel beh fuel time w log
+      = Done (mkVm (v_cur w) h' (v_chan w ++ spawned beh time ex), log ++ ex)
+    /\ Permutation (v_heap w) (ex ++ h')
+    /\ Forall (fun x => when x <= time) ex
+    /\ Forall (fun x => time < when x) h'.
+Proof.
+  induction fuel as [|f IH]; intros w log Hlen.
+  - destruct (v_heap w) as [|y hh] eqn:Hh; [|cbn [length] in Hlen; lia].
+    exists [], []. cbn [run_ready_vm]. rewrite Hh. cbn.
+    rewrite !app_nil_r. destruct w as [wc wh wch]; cbn in *; subst.
+    split; [reflexivity|split; [constructor|split; constructor]].
+  - cbn [run_ready_vm]. destruct (pop_task sel time (v_heap w)) as [[x h1]|] eqn:Hp.
+    + destruct (pop_task_some _ _ _ _ _ Hp) as [HP Hle].
+      rewrite fold_schedule_vm. cbn [v_cur v_heap v_chan].
+      set (w1 := mkVm (v_cur w) h1 (v_chan w ++ map to_task (beh (clo x) time))).
+      assert (Hl1 : (length (v_heap w1) <= f)%nat).
+      { cbn [w1 v_heap]. apply Permutation_length in HP. cbn [length] in HP. lia. }
+      destruct (IH w1 (log ++ [x]) Hl1) as [h' [ex [Hrun [HP1 [Hex Hh']]]]].
+      exists h', (x :: ex). rewrite Hrun. cbn [w1 v_cur v_heap v_chan] in *.
+      rewrite spawned_cons, <- !app_assoc. cbn [app]. split; [reflexivity|split; [|split]].
+      * rewrite HP. cbn [app]. constructor. exact HP1.
+      * constructor; assumption.
+      * exact Hh'.
+    + exists (v_heap w), []. cbn [spawned flat_map app]. rewrite !app_nil_r.
+      destruct w as [wc wh wch]; cbn [v_cur v_heap v_chan] in *. split; [reflexivity|split; [|split]].
+      * apply Permutation_refl.
+      * constructor.
+      * apply (pop_task_none _ _ _ Hp).
+Qed.
+
+(* ====================================================================== *)
+(* WASM handle                                                             *)
+
+Lemma schedule_all_wasm_ok s rs :
+  Forall (later_than (w_cur s)) rs ->
+  schedule_all_wasm s rs = Done (mkWs (w_cur s) (w_heap s ++ map to_task rs)).
+Proof.
+  revert s. induction rs as [|r rs IH]; intros s HF; cbn [schedule_all_wasm map].
+  - rewrite app_nil_r. destruct s as [sc sh]; reflexivity.
+  - inversion HF as [|? ? Hr Hrs]; subst. unfold schedule_at_wasm.
+    unfold later_than in Hr.
+    destruct (when (to_task r) <=? w_cur s) eqn:Hle; [apply N.leb_le in Hle; lia|].
+    cbn [bind]. rewrite IH; cbn [w_cur w_heap]; [|exact Hrs].
+    unfold heap_push. rewrite <- app_assoc. reflexivity.
+Qed.
+
+(* what the code does when the premise is violated: the schedule call itself panics *)
+Lemma schedule_at_wasm_panics s r :
+  when (to_task r) <= w_cur s -> schedule_at_wasm s r = Panic.
+Proof.
+  intro Hle. unfold schedule_at_wasm. apply N.leb_le in Hle. rewrite Hle. reflexivity.
+Qed.
+
+Lemma drain_due_spec sel now :
+  forall fuel h ready, (length h <= fuel)%nat ->
+  exists ex h',
+    drain_due sel fuel now h ready = Done (ready ++ ex, h')
+    /\ Permutation h (ex ++ h')
+    /\ Forall (fun x => when x <= now) ex
+    /\ Forall (fun x => now < when x) h'.
+Proof.
+  induction fuel as [|f IH]; intros h ready Hlen.
+  - destruct h as [|y hh]; [|cbn [length] in Hlen; lia].
+    exists [], []. cbn. rewrite app_nil_r. split; [reflexivity|split; [constructor|split; constructor]].
+  - cbn [drain_due]. destruct (pop_task sel now h) as [[x h1]|] eqn:Hp.
+    + destruct (pop_task_some _ _ _ _ _ Hp) as [HP Hle].
+      assert (Hl1 : (length h1 <= f)%nat).
+      { apply Permutation_length in HP. cbn [length] in HP. lia. }
+      destruct (IH h1 (ready ++ [x]) Hl1) as [ex [h' [Hrun [HP1 [Hex Hh']]]]].
+      exists (x :: ex), h'. rewrite Hrun, <- app_assoc. cbn [app]. split; [reflexivity|split; [|split]].
+      * rewrite HP. constructor. exact HP1.
+      * constructor; assumption.
+      * exact Hh'.
+    + exists [], h. rewrite app_nil_r. cbn [app]. split; [reflexivity|split; [|split]].
+      * apply Permutation_refl.
+      * constructor.
+      * apply (pop_task_none _ _ _ Hp).
+Qed.
+
+Lemma exec_ready_wasm_ok H beh time ready :
+  respects_future H beh -> time < H ->
+  forall s, w_cur s = time ->
+  exec_ready_wasm beh time ready s = Done (mkWs time (w_heap s ++ spawned beh time ready)).
+Proof.
+  intros Hb HtH. induction ready as [|x rest IH]; intros s Hc; cbn [exec_ready_wasm].
+  - cbn [spawned flat_map]. rewrite app_nil_r. destruct s as [sc sh]; cbn in *; subst; reflexivity.
+  - rewrite schedule_all_wasm_ok.
+    + cbn [bind]. rewrite IH; cbn [w_cur w_heap]; [|exact Hc].
+      rewrite spawned_cons, <- app_assoc. reflexivity.
+    + apply Forall_forall. intros r Hr. rewrite Hc. apply (Hb _ _ _ HtH Hr).
+Qed.
+
+(* ====================================================================== *)
+(* the ideal schedule: consequences of the premise                         *)
+
+Section Trace.
+  Variable beh : behaviour.
+  Variable dspb : dsp_behaviour.
+  Variable init : list request.
+  Variable H : N.
+  Hypothesis Hbeh : respects_future H beh.
+  Hypothesis Hdsp : dsp_respects_future H dspb.
+  Hypothesis Hinit : init_respects_future init.
+
+  Lemma spawned_future t ex : t < H -> Forall (fun x => t < when x) (spawned beh t ex).
+  Proof.
+    intro HtH.
+    apply Forall_forall. intros x Hx. unfold spawned in Hx.
+    apply in_flat_map in Hx. destruct Hx as [y [_ Hx]]. apply in_map_iff in Hx.
+    destruct Hx as [r [<- Hr]]. apply (Hbeh _ _ _ HtH Hr).
+  Qed.
+
+  Lemma dsp_future t : t < H -> Forall (fun x => t < when x) (map to_task (dspb t)).
+  Proof.
+    intro HtH. apply Forall_forall. intros x Hx. apply in_map_iff in Hx.
+    destruct Hx as [r [<- Hr]]. apply (Hdsp _ _ HtH Hr).
+  Qed.
+
+  Lemma init_future : Forall (fun x => 0 < when x) (map to_task init).
+  Proof.
+    apply Forall_forall. intros x Hx. apply in_map_iff in Hx.
+    destruct Hx as [r [<- Hr]]. apply (Hinit _ Hr).
+  Qed.
+
+  (* every pending task lies in the future: when >= T, and > 0 *)
+  Lemma trace_pending_future T P execs :
+    trace_ok beh dspb init T P execs -> N.of_nat T <= H ->
+    Forall (fun x => N.of_nat T <= when x /\ 0 < when x) P.
+  Proof.
+    induction 1 as [P HP|T P0 execs ex P Htr IH Hex HP]; intro HTH.
+    - eapply Forall_perm; [apply Permutation_sym; exact HP|].
+      eapply Forall_impl; [|exact init_future]. cbn beta. intros x Hx. lia.
+    - eapply Forall_perm; [apply Permutation_sym; exact HP|].
+      apply Forall_app. split; [|apply Forall_app; split].
+      + apply Forall_forall. intros x Hx. apply filter_In in Hx. destruct Hx as [Hx Hlt].
+        apply N.ltb_lt in Hlt. assert (HTH' : N.of_nat T <= H) by lia. specialize (IH HTH').
+        rewrite Forall_forall in IH. specialize (IH x Hx). lia.
+      + assert (HtH : N.of_nat T < H) by lia.
+        eapply Forall_impl; [|exact (spawned_future (N.of_nat T) ex HtH)]. cbn beta. intros x Hx. lia.
+      + assert (HtH : N.of_nat T < H) by lia.
+        eapply Forall_impl; [|exact (dsp_future (N.of_nat T) HtH)]. cbn beta. intros x Hx. lia.
+  Qed.
+
+  Lemma trace_length T P execs : trace_ok beh dspb init T P execs -> length execs = T.
+  Proof.
+    induction 1 as [P HP|T P0 execs ex P Htr IH Hex HP]; [reflexivity|].
+    rewrite app_length, IH. cbn [length]. lia.
+  Qed.
+
+  Lemma sched_ticks_snoc t execs ex :
+    sched_ticks beh dspb t (execs ++ [ex])
+    = sched_ticks beh dspb t execs
+      ++ spawned beh (N.of_nat (t + length execs)) ex ++ map to_task (dspb (N.of_nat (t + length execs))).
+  Proof.
+    revert t. induction execs as [|e execs IH]; intro t; cbn [sched_ticks app length].
+    - rewrite Nat.add_0_r, !app_nil_r. reflexivity.
+    - rewrite IH. replace (S t + length execs)%nat with (t + S (length execs))%nat by lia.
+      rewrite <- !app_assoc. reflexivity.
+  Qed.
+
+  (* the multiset form of the property: what ran in sample t is exactly what was scheduled for t;
+     what is pending is exactly what was scheduled for T and later *)
+  Lemma trace_exactly_once T P execs :
+    trace_ok beh dspb init T P execs -> N.of_nat T <= H ->
+    (forall t, (t < T)%nat ->
+       Permutation (nth t execs []) (filter (fun x => when x =? N.of_nat t) (scheduled_by beh dspb init execs)))
+    /\ Permutation P (filter (fun x => N.of_nat T <=? when x) (scheduled_by beh dspb init execs)).
+  Proof.
+    induction 1 as [P HP|T P0 execs ex P Htr IH Hex HP]; intro HTH.
+    - split; [intros t Ht; lia|].
+      unfold scheduled_by. cbn [sched_ticks]. rewrite app_nil_r, filter_all; [exact HP|].
+      apply Forall_forall. intros x _. apply N.leb_le. cbn. lia.
+    - assert (HTH' : N.of_nat T <= H) by lia. assert (HtH : N.of_nat T < H) by lia.
+      destruct (IH HTH') as [IHex IHP].
+      pose proof (trace_length _ _ _ Htr) as Hlen.
+      set (Sold := scheduled_by beh dspb init execs) in *.
+      set (new := spawned beh (N.of_nat T) ex ++ map to_task (dspb (N.of_nat T))).
+      assert (HS : scheduled_by beh dspb init (execs ++ [ex]) = Sold ++ new).
+      { unfold Sold, new, scheduled_by. rewrite sched_ticks_snoc, Hlen. cbn [Nat.add].
+        rewrite <- ?app_assoc. reflexivity. }
+      assert (Hnew : Forall (fun x => N.of_nat T < when x) new).
+      { apply Forall_app. split; [apply spawned_future|apply dsp_future]; exact HtH. }
+      rewrite HS. split.
+      + intros t Ht. rewrite filter_app.
+        rewrite (filter_none _ new).
+        2:{ eapply Forall_impl; [|exact Hnew]. cbn beta. intros x Hx. apply N.eqb_neq. lia. }
+        rewrite app_nil_r.
+        destruct (Nat.eq_dec t T) as [->|Hne].
+        * rewrite app_nth2, Hlen, Nat.sub_diag by lia. cbn [nth].
+          rewrite Hex. rewrite (Permutation_filter _ _ _ IHP), filter_filter.
+          erewrite filter_ext_Forall; [apply Permutation_refl|].
+          apply Forall_forall. intros x _. cbn beta.
+          destruct (when x =? N.of_nat T) eqn:He; [|reflexivity].
+          apply N.eqb_eq in He. cbn [andb]. apply N.leb_le. lia.
+        * rewrite app_nth1 by lia. apply IHex. lia.
+      + rewrite HP. rewrite filter_app. fold new.
+        rewrite (filter_all _ new).
+        2:{ eapply Forall_impl; [|exact Hnew]. cbn beta. intros x Hx. apply N.leb_le. lia. }
+        apply Permutation_app_tail.
+        rewrite (Permutation_filter _ _ _ IHP), filter_filter.
+        erewrite filter_ext_Forall; [apply Permutation_refl|].
+        apply Forall_forall. intros x _. cbn beta.
+        destruct (N.of_nat T <? when x) eqn:Hlt.
+        * apply N.ltb_lt in Hlt. cbn [andb].
+          transitivity true; [apply N.leb_le; lia|symmetry; apply N.leb_le; lia].
+        * apply N.ltb_ge in Hlt. cbn [andb]. symmetry. apply N.leb_gt. lia.
+  Qed.
+End Trace.
+
+(* two runs following the ideal schedule execute the same multiset in every sample (no premise needed) *)
+Lemma trace_unique beh dspb init T :
+  forall P execs P' execs',
+  trace_ok beh dspb init T P execs -> trace_ok beh dspb init T P' execs' ->
+  Permutation P P' /\ Forall2 (@Permutation task) execs execs'.
+Proof.
+  induction T as [|T IH]; intros P execs P' execs' H1 H2.
+  - inversion H1 as [? HP1|]; subst. inversion H2 as [? HP2|]; subst.
+    split; [rewrite HP1, HP2; apply Permutation_refl|constructor].
+  - inversion H1 as [|? P0 ex0 ex ? Htr Hex HP]; subst.
+    inversion H2 as [|? P0' ex0' ex' ? Htr' Hex' HP']; subst.
+    destruct (IH _ _ _ _ Htr Htr') as [HP0 HF].
+    assert (Hee : Permutation ex ex').
+    { rewrite Hex, Hex'. apply Permutation_filter. exact HP0. }
+    split.
+    + rewrite HP, HP'. apply Permutation_app; [apply Permutation_filter; exact HP0|].
+      apply Permutation_app_tail. apply spawned_perm. exact Hee.
+    + apply Forall2_app; [exact HF|]. constructor; [exact Hee|constructor].
+Qed.
+
+(* ====================================================================== *)
+(* the two machines follow the ideal schedule                              *)
+
+Section Runs.
+  Variable beh : behaviour.
+  Variable dspb : dsp_behaviour.
+  Variable init : list request.
+  Variable H : N.
+  Hypothesis Hbeh : respects_future H beh.
+  Hypothesis Hdsp : dsp_respects_future H dspb.
+  Hypothesis Hinit : init_respects_future init.
+
+  (* one VmDspRuntime::run_dsp on a worker whose pending tasks follow the ideal schedule *)
+  Lemma vm_tick sel T w execs :
+    trace_ok beh dspb init T (v_chan w ++ v_heap w) execs ->
+    v_cur w = N.pred (N.of_nat T) -> N.of_nat T < H ->
+    exists w' ex,
+      run_dsp_vm sel beh dspb (N.of_nat T) w = Done (w', ex)
+      /\ trace_ok beh dspb init (S T) (v_chan w' ++ v_heap w') (execs ++ [ex])
+      /\ v_cur w' = N.of_nat T.
+  Proof.
+    intros Htr Hcur HtH.
+    assert (HTH : N.of_nat T <= H) by lia.
+    pose proof (trace_pending_future beh dspb init H Hbeh Hdsp Hinit _ _ _ Htr HTH) as HF.
+    assert (HFc : Forall (fun x => v_cur w < when x) (v_chan w)).
+    { apply Forall_app in HF. destruct HF as [HFc _].
+      eapply Forall_impl; [|exact HFc]. cbn beta. intros x Hx. rewrite Hcur. lia. }
+    unfold run_dsp_vm, on_sample_vm. rewrite (drain_channel_ok _ _ _ HFc). cbn [bind].
+    destruct (run_ready_vm_spec sel beh (N.of_nat T) (length (v_heap w ++ v_chan w))
+                (mkVm (N.of_nat T) (v_heap w ++ v_chan w) []) [] (le_n _))
+      as [h' [ex [Hrun [HP [Hex Hh']]]]].
+    rewrite Hrun. cbn [bind v_cur v_heap v_chan app] in *. rewrite fold_schedule_vm.
+    cbn [v_cur v_heap v_chan].
+    eexists; exists ex. split; [reflexivity|]. cbn [v_cur v_heap v_chan]. split; [|reflexivity].
+    destruct (perm_split_filter (fun x => when x <=? N.of_nat T) _ _ _ HP) as [Hpe Hph].
+    { eapply Forall_impl; [|exact Hex]. cbn beta. intros x Hx. apply N.leb_le. exact Hx. }
+    { eapply Forall_impl; [|exact Hh']. cbn beta. intros x Hx. apply N.leb_gt. exact Hx. }
+    assert (Hcomm : Permutation (v_heap w ++ v_chan w) (v_chan w ++ v_heap w))
+      by apply Permutation_app_comm.
+    apply (trace_S beh dspb init T (v_chan w ++ v_heap w) execs ex); [exact Htr| |].
+    - rewrite Hpe. rewrite (Permutation_filter _ _ _ Hcomm).
+      erewrite filter_ext_Forall; [apply Permutation_refl|].
+      eapply Forall_impl; [|exact HF]. cbn beta. intros x [Hx _].
+      destruct (when x =? N.of_nat T) eqn:He.
+      + apply N.eqb_eq in He. apply N.leb_le. lia.
+      + apply N.eqb_neq in He. apply N.leb_gt. lia.
+    - rewrite Permutation_app_comm.
+      apply Permutation_app.
+      + rewrite Hph. rewrite (Permutation_filter _ _ _ Hcomm).
+        erewrite filter_ext_Forall; [apply Permutation_refl|].
+        apply Forall_forall. intros x _. cbn beta. rewrite N.ltb_antisym. reflexivity.
+      + apply Permutation_refl.
+  Qed.
+
+  (* one WasmDspRuntime::run_dsp on a handle whose heap follows the ideal schedule *)
+  Lemma wasm_tick sel T s execs :
+    trace_ok beh dspb init T (w_heap s) execs ->
+    w_cur s = N.pred (N.of_nat T) -> N.of_nat T < H ->
+    exists s' ex,
+      run_dsp_wasm sel beh dspb (N.of_nat T) s = Done (s', ex)
+      /\ trace_ok beh dspb init (S T) (w_heap s') (execs ++ [ex])
+      /\ w_cur s' = N.of_nat T.
+  Proof.
+    intros Htr Hcur HtH.
+    assert (HTH : N.of_nat T <= H) by lia.
+    pose proof (trace_pending_future beh dspb init H Hbeh Hdsp Hinit _ _ _ Htr HTH) as HF.
+    unfold run_dsp_wasm, on_sample_wasm.
+    destruct (drain_due_spec sel (N.of_nat T) (length (w_heap s)) (w_heap s) [] (le_n _))
+      as [ex [h' [Hrun [HP [Hex Hh']]]]].
+    rewrite Hrun. cbn [bind app].
+    rewrite (exec_ready_wasm_ok H beh (N.of_nat T) ex Hbeh HtH (mkWs (N.of_nat T) h') eq_refl).
+    cbn [bind w_heap]. rewrite schedule_all_wasm_ok.
+    2:{ cbn [w_cur]. apply Forall_forall. intros r Hr. apply (Hdsp _ _ HtH Hr). }
+    cbn [bind w_cur w_heap].
+    eexists; exists ex. split; [reflexivity|]. cbn [w_cur w_heap]. split; [|reflexivity].
+    destruct (perm_split_filter (fun x => when x <=? N.of_nat T) _ _ _ HP) as [Hpe Hph].
+    { eapply Forall_impl; [|exact Hex]. cbn beta. intros x Hx. apply N.leb_le. exact Hx. }
+    { eapply Forall_impl; [|exact Hh']. cbn beta. intros x Hx. apply N.leb_gt. exact Hx. }
+    apply (trace_S beh dspb init T (w_heap s) execs ex); [exact Htr| |].
+    - rewrite Hpe.
+      erewrite filter_ext_Forall; [apply Permutation_refl|].
+      eapply Forall_impl; [|exact HF]. cbn beta. intros x [Hx _].
+      destruct (when x =? N.of_nat T) eqn:He.
+      + apply N.eqb_eq in He. apply N.leb_le. lia.
+      + apply N.eqb_neq in He. apply N.leb_gt. lia.
+    - rewrite <- app_assoc. apply Permutation_app; [|apply Permutation_refl].
+      rewrite Hph.
+      erewrite filter_ext_Forall; [apply Permutation_refl|].
+      apply Forall_forall. intros x _. cbn beta. rewrite N.ltb_antisym. reflexivity.
+  Qed.
+
+  Lemma run_vm_trace sel T :
+    N.of_nat T <= H ->
+    exists w execs,
+      run_vm sel beh dspb init T = Done (w, execs)
+      /\ trace_ok beh dspb init T (v_chan w ++ v_heap w) execs
+      /\ v_cur w = N.pred (N.of_nat T).
+  Proof.
+    induction T as [|T IH]; intro HTH.
+    - cbn [run_vm]. rewrite fold_schedule_vm. cbn [vm_init v_cur v_heap v_chan app].
+      eexists; eexists. split; [reflexivity|]. cbn [v_cur v_heap v_chan]. split; [|reflexivity].
+      constructor. rewrite app_nil_r. apply Permutation_refl.
+    - assert (HtH : N.of_nat T < H) by lia.
+      destruct IH as [w [execs [Hrun [Htr Hcur]]]]; [lia|].
+      destruct (vm_tick sel T w execs Htr Hcur HtH) as [w' [ex [Hstep [Htr' Hcur']]]].
+      cbn [run_vm]. rewrite Hrun. cbn [bind]. rewrite Hstep. cbn [bind].
+      exists w', (execs ++ [ex]). split; [reflexivity|]. split; [exact Htr'|]. rewrite Hcur'. lia.
+  Qed.
+
+  Lemma run_wasm_trace sel T :
+    N.of_nat T <= H ->
+    exists s execs,
+      run_wasm sel beh dspb init T = Done (s, execs)
+      /\ trace_ok beh dspb init T (w_heap s) execs
+      /\ w_cur s = N.pred (N.of_nat T).
+  Proof.
+    induction T as [|T IH]; intro HTH.
+    - cbn [run_wasm]. rewrite schedule_all_wasm_ok.
+      2:{ cbn [wasm_init w_cur]. apply Forall_forall. intros r Hr. apply (Hinit _ Hr). }
+      cbn [bind wasm_init w_cur w_heap app].
+      eexists; eexists. split; [reflexivity|]. cbn [w_cur w_heap]. split; [|reflexivity].
+      constructor. apply Permutation_refl.
+    - assert (HtH : N.of_nat T < H) by lia.
+      destruct IH as [s [execs [Hrun [Htr Hcur]]]]; [lia|].
+      destruct (wasm_tick sel T s execs Htr Hcur HtH) as [s' [ex [Hstep [Htr' Hcur']]]].
+      cbn [run_wasm]. rewrite Hrun. cbn [bind]. rewrite Hstep. cbn [bind].
+      exists s', (execs ++ [ex]). split; [reflexivity|]. split; [exact Htr'|]. rewrite Hcur'. lia.
+  Qed.
+End Runs.
+
+(* ====================================================================== *)
+(* statements used by Props/C11.v                                          *)
+
+Lemma vm_exactly_once :
+  forall (sel : selector) (beh : behaviour) (dspb : dsp_behaviour) (init : list request) (T : nat),
+  respects_future (N.of_nat T) beh -> dsp_respects_future (N.of_nat T) dspb -> init_respects_future init ->
+  exists w execs,
+    run_vm sel beh dspb init T = Done (w, execs)
+    /\ length execs = T
+    /\ (forall t, (t < T)%nat ->
+          Permutation (nth t execs [])
+            (filter (fun x => when x =? N.of_nat t) (scheduled_by beh dspb init execs)))
+    /\ Permutation (v_chan w ++ v_heap w)
+         (filter (fun x => N.of_nat T <=? when x) (scheduled_by beh dspb init execs))
+    /\ Forall (fun x => v_cur w < when x) (v_chan w ++ v_heap w).
+Proof.
+  intros sel beh dspb init T Hb Hd Hi.
+  destruct (run_vm_trace beh dspb init _ Hb Hd Hi sel T (N.le_refl _)) as [w [execs [Hrun [Htr Hcur]]]].
+  exists w, execs. split; [exact Hrun|]. split; [exact (trace_length _ _ _ _ _ _ Htr)|].
+  destruct (trace_exactly_once beh dspb init _ Hb Hd _ _ _ Htr (N.le_refl _)) as [H1 H2].
+  split; [exact H1|]. split; [exact H2|].
+  pose proof (trace_pending_future beh dspb init _ Hb Hd Hi _ _ _ Htr (N.le_refl _)) as HF.
+  eapply Forall_impl; [|exact HF]. cbn beta. intros x Hx. rewrite Hcur. lia.
+Qed.
+
+Lemma wasm_exactly_once :
+  forall (sel : selector) (beh : behaviour) (dspb : dsp_behaviour) (init : list request) (T : nat),
+  respects_future (N.of_nat T) beh -> dsp_respects_future (N.of_nat T) dspb -> init_respects_future init ->
+  exists s execs,
+    run_wasm sel beh dspb init T = Done (s, execs)
+    /\ length execs = T
+    /\ (forall t, (t < T)%nat ->
+          Permutation (nth t execs [])
+            (filter (fun x => when x =? N.of_nat t) (scheduled_by beh dspb init execs)))
+    /\ Permutation (w_heap s)
+         (filter (fun x => N.of_nat T <=? when x) (scheduled_by beh dspb init execs))
+    /\ Forall (fun x => w_cur s < when x) (w_heap s).
+Proof.
+  intros sel beh dspb init T Hb Hd Hi.
+  destruct (run_wasm_trace beh dspb init _ Hb Hd Hi sel T (N.le_refl _)) as [s [execs [Hrun [Htr Hcur]]]].
+  exists s, execs. split; [exact Hrun|]. split; [exact (trace_length _ _ _ _ _ _ Htr)|].
+  destruct (trace_exactly_once beh dspb init _ Hb Hd _ _ _ Htr (N.le_refl _)) as [H1 H2].
+  split; [exact H1|]. split; [exact H2|].
+  pose proof (trace_pending_future beh dspb init _ Hb Hd Hi _ _ _ Htr (N.le_refl _)) as HF.
+  eapply Forall_impl; [|exact HF]. cbn beta. intros x Hx. rewrite Hcur. lia.
+Qed.
+
+Lemma backends_agree :
+  forall (selv selw : selector) (beh : behaviour) (dspb : dsp_behaviour) (init : list request) (T : nat),
+  respects_future (N.of_nat T) beh -> dsp_respects_future (N.of_nat T) dspb -> init_respects_future init ->
+  exists w ev s ew,
+    run_vm selv beh dspb init T = Done (w, ev)
+    /\ run_wasm selw beh dspb init T = Done (s, ew)
+    /\ Forall2 (@Permutation task) ev ew
+    /\ Permutation (v_chan w ++ v_heap w) (w_heap s).
+Proof.
+  intros selv selw beh dspb init T Hb Hd Hi.
+  destruct (run_vm_trace beh dspb init _ Hb Hd Hi selv T (N.le_refl _)) as [w [ev [Hrv [Htv _]]]].
+  destruct (run_wasm_trace beh dspb init _ Hb Hd Hi selw T (N.le_refl _)) as [s [ew [Hrw [Htw _]]]].
+  exists w, ev, s, ew. split; [exact Hrv|]. split; [exact Hrw|].
+  destruct (trace_unique _ _ _ _ _ _ _ _ Htv Htw) as [HP HF]. split; assumption.
+Qed.
+
+(* the order in which BinaryHeap hands out equal-time tasks does not matter *)
+Lemma vm_selector_irrelevant :
+  forall (sel1 sel2 : selector) (beh : behaviour) (dspb : dsp_behaviour) (init : list request) (T : nat),
+  respects_future (N.of_nat T) beh -> dsp_respects_future (N.of_nat T) dspb -> init_respects_future init ->
+  exists w1 e1 w2 e2,
+    run_vm sel1 beh dspb init T = Done (w1, e1)
+    /\ run_vm sel2 beh dspb init T = Done (w2, e2)
+    /\ Forall2 (@Permutation task) e1 e2.
+Proof.
+  intros sel1 sel2 beh dspb init T Hb Hd Hi.
+  destruct (run_vm_trace beh dspb init _ Hb Hd Hi sel1 T (N.le_refl _)) as [w1 [e1 [Hr1 [Ht1 _]]]].
+  destruct (run_vm_trace beh dspb init _ Hb Hd Hi sel2 T (N.le_refl _)) as [w2 [e2 [Hr2 [Ht2 _]]]].
+  exists w1, e1, w2, e2. split; [exact Hr1|]. split; [exact Hr2|].
+  apply (trace_unique _ _ _ _ _ _ _ _ Ht1 Ht2).
+Qed.
+
+(* ---- premise violated: what the code does ---- *)
+Lemma vm_not_future_panics_at_next_sample :
+  forall sel beh time w x,
+  In x (v_chan w) -> when x <= v_cur w -> on_sample_vm sel beh time w = Panic.
+Proof.
+  intros sel beh time w x Hin Hle. unfold on_sample_vm.
+  rewrite (drain_channel_panics _ _ _ x Hin Hle). reflexivity.
+Qed.
+
+Lemma vm_schedule_never_panics :
+  forall w r, exists w', schedule_at_vm w r = w' /\ v_chan w' = v_chan w ++ [to_task r].
+Proof. intros w r. eexists. split; reflexivity. Qed.
+
+(* ---- the table-driven behaviours used by the correspondence check satisfy the premise whenever every
+        rule asks for at least one whole sample of delay (dq >= 4 quarter samples) ---- *)
+Lemma trunc_quarter_future now dq :
+  now < U64_MAX -> (4 <= dq)%Z -> now < trunc_time (FQuarter (4 * Z.of_N now + dq)).
+Proof.
+  intros Hnow Hdq. unfold trunc_time.
+  destruct (4 * Z.of_N now + dq <? 0)%Z eqn:Hneg; [apply Z.ltb_lt in Hneg; lia|].
+  assert (Hdiv : (Z.of_N now + 1 <= (4 * Z.of_N now + dq) / 4)%Z).
+  { apply Z.div_le_lower_bound; lia. }
+  apply N.min_glb_lt; [|exact Hnow]. lia.
+Qed.
+
+Definition rules_delay_ok (rs : list rule) : Prop := Forall (fun r : rule => (4 <= fst r)%Z) rs.
+
+Lemma apply_rules_future now rs r :
+  now < U64_MAX -> rules_delay_ok rs -> In r (apply_rules now rs) -> later_than now r.
+Proof.
+  intros Hnow Hok Hin. unfold apply_rules in Hin. apply in_map_iff in Hin.
+  destruct Hin as [[dq c] [<- Hin]]. unfold rules_delay_ok in Hok. rewrite Forall_forall in Hok.
+  specialize (Hok _ Hin). cbn [fst snd] in *. unfold later_than, to_task. cbn [when fst].
+  apply trunc_quarter_future; assumption.
+Qed.
+
+Lemma lookup_ok {A} (P : A -> Prop) k tbl d :
+  P d -> Forall (fun e : N * A => P (snd e)) tbl -> P (lookup k tbl d).
+Proof.
+  intros Hd HF. induction HF as [|[k' v] tbl Hv HF IH]; cbn [lookup]; [exact Hd|].
+  destruct (k =? k'); [exact Hv|exact IH].
+Qed.
+
+Lemma table_behaviour_respects H tbl :
+  H <= U64_MAX -> Forall (fun e : N * list rule => rules_delay_ok (snd e)) tbl ->
+  respects_future H (table_behaviour tbl).
+Proof.
+  intros HH HF c now r Hnow Hin. unfold table_behaviour in Hin.
+  eapply apply_rules_future; [lia| |exact Hin].
+  apply (lookup_ok rules_delay_ok); [constructor|exact HF].
+Qed.
+
+Lemma table_dsp_respects H tbl :
+  H <= U64_MAX -> Forall (fun e : N * list rule => rules_delay_ok (snd e)) tbl ->
+  dsp_respects_future H (table_dsp tbl).
+Proof.
+  intros HH HF now r Hnow Hin. unfold table_dsp in Hin.
+  eapply apply_rules_future; [lia| |exact Hin].
+  apply (lookup_ok rules_delay_ok); [constructor|exact HF].
+Qed.
